@@ -922,6 +922,8 @@ def motion_filter_probe(prog, caller, call_pred, dist_cli: T, ang_cli: T):
                 if id(a) in seen or a.op != "cmp":
                     continue
                 seen.add(id(a))
+                if a.args[0] not in ("Lt", "LtE", "Gt", "GtE"):
+                    continue       # a threshold test is an order comparison
                 for mine, other in ((a.args[1], a.args[2]),
                                     (a.args[2], a.args[1])):
                     is_ang = any(x.op == "call" and (
